@@ -146,6 +146,40 @@ def bw_write(ex, args, callee):
     return ok(Int(blen, 'usize'))
 
 
+def bw_write_all(ex, args, callee):
+    """BufWriter::write_all (bufwriter.rs): buffer when it fits, else write_all_cold = flush_buf when it does not fit in
+    the spare room, then either the underlying writer's write_all (default loop: Interrupted retried, all-or-nothing
+    writer so one accepted attempt ends it) or the buffer."""
+    ref, buf = args[0], as_str(ex, args[1])
+    cap, inner, content, panicked = _bw(ex, ref).state
+    blen = buf.length()
+    spare = cap.t - content.total()
+    if ex.choose_bool(z3.ULT(blen, spare)):
+        bw_write_to_buffer(ex, ref, buf)
+        return ok(UNIT)
+    if ex.choose_bool(z3.UGT(blen, spare)):
+        r = flush_buf(ex, ref, 'bufwriter-flush_buf(write_all_cold)')
+        if is_variant(r, 'Err'):
+            return r
+    cap, inner, content, panicked = _bw(ex, ref).state
+    if ex.choose_bool(z3.UGE(blen, cap.t)):
+        retries = 0
+        while True:
+            r = inner_write(ex, inner, buf, 'bufwriter-direct(write_all_cold)')
+            if is_variant(r, 'Ok'):
+                ex.assume(r.fields[0].t == blen)
+                return ok(UNIT)
+            e = r.fields[0]
+            if ex.choose_bool(e.state[1] == EK_INTERRUPTED):
+                retries += 1
+                if retries > MAX_INTERRUPTED:
+                    raise PathCut('more than %d consecutive Interrupted results in one write_all' % MAX_INTERRUPTED)
+                continue
+            return r
+    bw_write_to_buffer(ex, ref, buf)
+    return ok(UNIT)
+
+
 def bw_flush(ex, args, callee):
     ref = args[0]
     r = flush_buf(ex, ref, 'bufwriter-flush')
@@ -205,6 +239,7 @@ def install(ex: Explorer):
     }
     ex.stubs['<BufWriter as Write>::write'] = bw_write
     ex.stubs['<BufWriter as Write>::flush'] = bw_flush
+    ex.stubs['<BufWriter as Write>::write_all'] = bw_write_all
     ex.stubs['BufWriter::get_mut'] = bw_get_mut
     ex.stubs['BufWriter::get_ref'] = bw_get_ref
     ex.stubs['BufWriter::with_capacity'] = bw_with_capacity
